@@ -57,7 +57,8 @@ def main():
             props = sys.argv[i + 1].split(",")
             args = [x for x in args if x != sys.argv[i + 1]]
     ids = args or sorted(x for x in os.listdir(os.path.join(HERE, "seeded")) if os.path.isdir(os.path.join(HERE, "seeded", x)))
-    rp = os.path.join(HERE, "seeded", "RESULTS.json")
+    # VF_SEEDED_RESULTS: a private results file for one of several concurrent runs (merged into RESULTS.json afterwards)
+    rp = os.environ.get("VF_SEEDED_RESULTS") or os.path.join(HERE, "seeded", "RESULTS.json")
     results = json.load(open(rp)) if os.path.exists(rp) else {}
     for sid in ids:
         r = run_one(sid, tier, props)
